@@ -106,9 +106,9 @@ Theorem C14_page_title_head_first : forall d t, first_title_in (d_head d) = Some
 Proof. exact doc_title_head_first. Qed.
 
 Theorem C14_page_title_ignores_graphics : forall d name a v cs rest,
-  first_title_in (d_head d) = None -> d_body d = SEl name a v cs :: rest -> is_foreign name = true ->
+  first_title_in (d_head d) = None -> d_body d = SEl name a v cs :: rest -> holds_no_page_title name = true ->
   doc_title d = match first_title_in rest with Some t => t | None => [] end.
 Proof. exact doc_title_body_graphics_ignored. Qed.
 
-Theorem C14_page_title_of_a_graphic_is_none : forall name a v cs, is_foreign name = true -> first_title (SEl name a v cs) = None.
+Theorem C14_page_title_of_a_graphic_is_none : forall name a v cs, holds_no_page_title name = true -> first_title (SEl name a v cs) = None.
 Proof. exact first_title_foreign. Qed.
